@@ -130,6 +130,13 @@ pub fn run_consts(out: &mut Out, seed: u64, _n: u64) {
     ] {
         c(out, "PatMemoryType", n, v.bits() as u64);
     }
+    {
+        let mut b = [0u8; 8];
+        for (i, e) in Pat::DEFAULT.iter().enumerate() {
+            b[i] = e.bits();
+        }
+        c(out, "PatMemoryType", "@Pat::DEFAULT", u64::from_le_bytes(b));
+    }
     for (n, v) in [("Ring0", PrivilegeLevel::Ring0), ("Ring1", PrivilegeLevel::Ring1), ("Ring2", PrivilegeLevel::Ring2), ("Ring3", PrivilegeLevel::Ring3)] {
         c(out, "PrivilegeLevel", n, v as u8 as u64);
     }
